@@ -25,7 +25,7 @@ Print Assumptions C01_one_to_one_in_order.
    the same body, and framed so that the client can find its end — for every
    script, however the origin framed it. *)
 Theorem C01_responses_preserved : forall es,
-  Forall2 res_preserved (map resp_of (served es)) (client_got (run es)).
+  Forall2 res_preserved_x (served es) (client_got (run es)).
 Proof. exact run_responses. Qed.
 Print Assumptions C01_responses_preserved.
 
@@ -58,9 +58,20 @@ Print Assumptions C01_close_decision_is_either_side_asked.
    and decides about the connection: the state of the client connection after
    an exchange does not depend on the origin's reading behaviour. *)
 Theorem C01_origin_read_mode_irrelevant : forall (f : exchange -> readmode) es,
-  run (map (fun e => mkEx (rq e) (rs e) (f e)) es) = run es.
+  run (map (fun e => mkEx (rq e) (rs e) (f e) (flt e)) es) = run es.
 Proof. intros f es. exact (conn_run_rd_irrelevant false id_body f es). Qed.
 Print Assumptions C01_origin_read_mode_irrelevant.
+
+(* Origin faults: an origin that receives the request and then fails (closes
+   before a complete response head) has been handed that request exactly once,
+   in its place in the order ([C01_one_to_one_in_order] holds for every script,
+   faulty exchanges included: [origin_saw] is one entry per served exchange);
+   the client gets the proxy's 502 for it, framed ([C01_responses_preserved]),
+   and the failure does not by itself end the client connection. *)
+Theorem C01_origin_fault_keeps_connection : forall e,
+  flt e = true -> wants_close e = req_asks_close (rq e).
+Proof. exact fault_keeps_connection. Qed.
+Print Assumptions C01_origin_fault_keeps_connection.
 
 (* Requests: same method, target, body, and for every end-to-end header the
    client sent the same values in the same order.  FALSE at full strength of
@@ -136,7 +147,7 @@ Proof. exact c01_req_ok_iff. Qed.
 Print Assumptions C01_request_oracle_is_the_clause.
 
 Theorem C01_response_oracle_is_the_clause : forall es o,
-  c01_res_ok es o = true <-> Forall2 res_preserved (map resp_of (served es)) (client_got o).
+  c01_res_ok es o = true <-> Forall2 res_preserved_x (served es) (client_got o).
 Proof. exact c01_res_ok_iff. Qed.
 Print Assumptions C01_response_oracle_is_the_clause.
 
@@ -188,11 +199,11 @@ Definition example_script : list exchange :=
              (s "Connection", s "x-hop, keep-alive"); (s "X-Hop", s "h"); (s "Pragma", s "no-cache")]
             (mkBody 4097 11) RqChunked)
          (Resp (mkResp 200 false [(s "Set-Cookie", s "a"); (s "set-cookie", s "b"); (s "Keep-Alive", s "t")]
-            (mkBody 65536 12) FChunked)) (ReadSome 100);
+            (mkBody 65536 12) FChunked)) (ReadSome 100) false;
     mkEx (mkReq (s "GET") OriginForm (s "/c") false [(s "Host", s "ORIGIN")] (mkBody 0 0) RqNone)
-         (Resp (mkResp 404 true [(s "ETag", s "e")] (mkBody 3 13) FCL)) ReadAll;
+         (Resp (mkResp 404 true [(s "ETag", s "e")] (mkBody 3 13) FCL)) ReadAll false;
     mkEx (mkReq (s "GET") OriginForm (s "/never") false [(s "Host", s "ORIGIN")] (mkBody 0 0) RqNone)
-         (Resp (mkResp 200 false [] (mkBody 1 14) FCL)) ReadAll ].
+         (Resp (mkResp 200 false [] (mkBody 1 14) FCL)) ReadAll false ].
 
 Example C01_example :
   forallb wf_ex example_script = true /\
@@ -222,7 +233,7 @@ Proof. reflexivity. Qed.
    GET body's, HEAD answered chunked, HEAD answered without any length, a 204. *)
 Definition head_ex (shs : list header) (st : N) (m : string) : exchange :=
   mkEx (mkReq (s m) OriginForm (s "/") false [(s "Host", s "ORIGIN")] (mkBody 0 0) RqNone)
-       (Resp (mkResp st false shs (mkBody 0 0) FBodiless)) ReadAll.
+       (Resp (mkResp st false shs (mkBody 0 0) FBodiless)) ReadAll false.
 
 Example C01_framing_example :
   let es := [head_ex [(s "Content-Length", s "12345")] 200 "HEAD";
@@ -231,4 +242,17 @@ Example C01_framing_example :
   forallb wf_ex es = true /\ c01_ok es (run es) = true /\
   map (fun c => (vals (s "content-length") (c_hdrs c), vals (s "transfer-encoding") (c_hdrs c))) (client_got (run es))
     = [([s "12345"], []); ([s "0"], []); ([], []); ([], [])].
+Proof. vm_compute. repeat split; reflexivity. Qed.
+
+(* Non-vacuity for origin faults: POST with a body to an origin that reads it and
+   hangs up, then two more exchanges: three requests at the origin, one each, in
+   order; 502 then the origin's answers; connection open. *)
+Example C01_fault_example :
+  let post := mkReq (s "POST") OriginForm (s "/p") false [(s "Host", s "ORIGIN")] (mkBody 5 77) RqCL in
+  let es := [mkEx post (Resp (mkResp 200 false [] (mkBody 1 14) FCL)) ReadAll true;
+             mkEx post (Resp (mkResp 201 false [] (mkBody 1 14) FCL)) ReadAll false;
+             head_ex [] 204 "GET"] in
+  forallb wf_ex es = true /\ c01_ok es (run es) = true /\
+  map w_body (origin_saw (run es)) = [mkBody 5 77; mkBody 5 77; mkBody 0 0] /\
+  map c_status (client_got (run es)) = [502; 201; 204]%N /\ closed (run es) = false.
 Proof. vm_compute. repeat split; reflexivity. Qed.
